@@ -187,6 +187,9 @@ func (w *World) buildVC(fn *ssa.Function) *VC {
 		defer func() {
 			if r := recover(); r != nil {
 				// a construct the generator cannot handle: the function is reported as not verified
+				if os.Getenv("MQVC_PANIC") != "" {
+					panic(r)
+				}
 				vc.unsupported(fr, fmt.Sprintf("generator failure: %v", r))
 			}
 		}()
